@@ -65,7 +65,7 @@ func VerifHarness_C01_ReadsMemtable3_Thorough() {
 }
 
 // tower heights 1..2 as a symbolic choice per insert
-func VerifHarness_C01_ReadsMemtableTowers_Thorough() {
+func VerifHarness_C01_ReadsMemtableTowers_Deep() {
 	hUseMemtable = true
 	hReads(3, 2, hPointAndRangeKinds)
 }
